@@ -310,6 +310,10 @@ def run(rep: Report, tier: str) -> None:  # noqa: C901
     # ---- R03.14: a time_agg grouping key is the calendar period that contains the date (shared with C08 R08.8) ----
     from sa.checks.c08 import _time_agg_date_table as _tagg
     _tagg(P, rep, "R03.14")
+    # ---- R03.15: aggregation / having leave the operand's stored structure alone (shared with C12) ----
+    rep.rule("R03.15", "visit_Aggregation / visit_ParamOp (having) / visit_RegularAggregation do not mutate the shared parts of the operand structure they got from self.visit")
+    from sa.checks.c12 import interpreter_leaves_operands as _ilo
+    _ilo(P, rep, "R03.15", {"visit_Aggregation", "visit_ParamOp", "visit_RegularAggregation"})
     rep.assumptions = ["DuckDB's aggregates of the same name implement the VTL aggregate operators (null measure values ignored)",
                        "SQLBuilder.having() conjoins conditions (read from sql_builder.py: _having_conditions.append)"]
 
